@@ -130,6 +130,18 @@ PROPS = {
                 "5 fixed histories (D49 with an explicit object, target index growing between two calls, empty target filled later), "
                 "ALL sequences of length <= 4 over {3 calls, 3 tadd shapes, re-creation} of one small index target x 3 option sets and over "
                 "{2 targets, 2 tadd shapes, 4 calls}; random histories include newtgt / tadd / tset and calls with the current object. "
+                "REMOVE: `rm:<k>` = ShapeIndex.Remove of the k-th shape present in the index (named by the object that was added; ids are "
+                "never reused): 9 fixed histories (D52: present shapes with ids >= Len(); D53: the single remaining shape has id != 0; removal "
+                "of a never-indexed shape, of the only shape, removal + addition in one batch, removal then Reset, EdgeQuery after removals), "
+                "`rm:0` in the alphabet of the main enumeration, ALL sequences of length <= 4 (thorough 5) over {rm:0, rm:1, build, query, add} "
+                "after three shapes and over {2 polylines, loop, query, rm:0}; random histories include rm. Every shape of an answer "
+                "(ContainingShapes, CrossingsEdgeMap keys, the clipped shapes of EVERY index cell with edge counts and containsCenter, "
+                "EdgeQuery results) is named by its POSITION among the present shapes, never by its id, and compared with a fresh index "
+                "holding exactly the present shapes. "
+                "REUSED QUERY OBJECTS: every `query` step also asks ONE long-lived CrossingEdgeQuery and ONE long-lived ContainsPointQuery "
+                "(created at the first query after an index change) a fixed sequence of 9 query edges x every present shape x both crossing "
+                "types (Crossings), CrossingsEdgeMap, ContainingShapes and ShapeContains at 7 points; the same questions go to a NEW query "
+                "object each on the fresh side (shapes with 3 edges = brute-force candidate path, 64 edges = index path). "
                 "Every query step is compared with the same query on fresh objects (fresh index with all current shapes built once, "
                 "fresh EdgeQuery with the caller's options, fresh loop/polygon from the current vertices, fresh target index + fresh "
                 "target from the current shape list of the target object, configured as the caller configured it). "
@@ -140,7 +152,10 @@ PROPS = {
                          "the model's 'same as fresh = N' is symbolic; the oracle accepts a concrete Y there (a wrong limit need not change a result)"],
         "assumptions": ["histories that mutate a ShapeIndex (Add/Reset) while an EdgeQuery on it is alive are out of contract: the model "
                         "drops the query object and the generator creates a new one",
-                        "Remove is not in the alphabet (removeShapeInternal is an unimplemented stub)",
+                        "Remove while an EdgeQuery on the index is alive is out of contract like Add / Reset (the model drops the query object)",
+                        "the same object is never added twice to one index (Remove(shape) finds the id through a map range: which of the "
+                        "two ids goes would be Go map order); EdgeIterator (shapeutil_edge_iterator.go) is not exercised after Remove: it "
+                        "bounds shape ids by len(shapes) and misses shapes after a removal (recorded observation, pinned by the test suite)",
                         "OPEN FINDING D51: the inner query of a ShapeIndex target caches a covering of the TARGET's index and is never "
                         "reset; the generator does not add shapes to a target index after a call that may have cached it (target index "
                         "with more than 30 edges); C13_D51=1 lifts this and the check then reports the violation. The oracle runs "
@@ -158,6 +173,7 @@ PROPS = {
         "translators": ["translator_c14"],
         "regenerated_obligations": ["S2Proofs.C14.generated_wellFormed", "S2Proofs.C14.isFresh_is_one_atomic_load",
                                     "S2Proofs.C14.mutators_store_status_last",
+                                    "S2Proofs.C14.remove_stores_status_last", "S2Proofs.C14.remove_early_returns",
                                     "S2Proofs.C14Footprint.generated_footprint_ok", "S2Proofs.C14Footprint.generated_field_classes",
                                     "S2Proofs.C14Footprint.generated_builder_only", "S2Proofs.C14Footprint.generated_establishing",
                                     "S2Proofs.C14Footprint.generated_reentry_sites"],
